@@ -2913,3 +2913,46 @@ def variadic_programs() -> Iterator[tuple[dict, str]]:
                     out = (add("Add", [(lp, 0), (lp, 1)], tys=[F]), 0)
                 opset = 18 if kind == "Concat" and k > 1 else 17
                 yield {"nodes": nodes, "outputs": [list(out)], "opset": opset}, f"{kind}x{k}@{place}"
+
+
+def upgrade_programs() -> Iterator[tuple[dict, str]]:
+    """Programs written at opset 17 whose bodies hold an operator whose definition CHANGES in a later version
+    (Split with explicit sizes: since 18 the sizes are an input next to a new `num_outputs` attribute) — for the
+    conversion route `Graph.with_opset(newer)`: the node inside an If branch, a Loop body, a Loop body inside an
+    If branch, and (control) in the main graph.  Yields (prog, tag)."""
+    V, B_, S = ty("i64", [N]), ty("bool", []), ty("i64", [])
+    for place in ("main", "if", "loop", "if-loop"):
+        nodes: list[dict] = []
+
+        def add(op, ins=(), subs=(), attrs=None, tys=()):
+            nodes.append({"op": op, "ins": [list(r) if r else None for r in ins], "subs": list(subs), "attrs": dict(attrs or {}), "ty": [list(t) for t in tys]})
+            return len(nodes) - 1
+
+        x = add("arg", attrs={"role": "main"}, tys=[V])
+        c = add("arg", attrs={"role": "main"}, tys=[B_])
+        n = add("arg", attrs={"role": "main", "range": "trip"}, tys=[S])
+        sizes = add("Constant", attrs={"value": [1, 2], "uid": 1, "layout": "C"}, tys=[ty("i64", [2])])
+
+        def swap(base):
+            sp = add("Split", [base, (sizes, 0)], attrs={"axis": 0, "outputs": 2}, tys=[ty("i64", [1]), ty("i64", [2])])
+            return (add("Concat", [(sp, 1), (sp, 0)], attrs={"axis": 0}, tys=[V]), 0)
+
+        def loop(init):
+            it = add("arg", attrs={"role": "formal"}, tys=[ty("i64", [], True)])
+            cn = add("arg", attrs={"role": "formal"}, tys=[ty("bool", [], True)])
+            a = add("arg", attrs={"role": "formal"}, tys=[V])
+            r = swap((a, 0))
+            return (add("Loop", [(n, 0), None, init], [{"args": [it, cn, a], "res": [[cn, 0], list(r)]}], tys=[V]), 0)
+
+        def iff(t, e):
+            return (add("If", [(c, 0)], [{"args": [], "res": [list(t)]}, {"args": [], "res": [list(e)]}], tys=[V]), 0)
+
+        if place == "main":
+            out = swap((x, 0))
+        elif place == "if":
+            out = iff(swap((x, 0)), (x, 0))
+        elif place == "loop":
+            out = loop((x, 0))
+        else:
+            out = iff(loop((x, 0)), (x, 0))
+        yield {"nodes": nodes, "outputs": [list(out)], "opset": 17}, place
